@@ -174,6 +174,13 @@ PutStart(t, len, id) ==
   /\ LET a == AllocOf(len) IN curPage' = a.page /\ curOff' = a.off + len
   /\ UNCHANGED <<durable, open>>
 
+\* a Put that has to roll over and cannot get its new data page (open / truncate / mmap of the page file fails)
+\* returns an error: no sequence is consumed, the write cursor and every stored byte stay as they were
+PutFail(t, len) ==
+  /\ open /\ Quiet /\ len <= PageSize
+  /\ AllocOf(len).page \notin dpages
+  /\ UNCHANGED vars
+
 \* deviation only: persistMetaOfMessage of a Put whose copy is finished
 PutPublish(t) ==
   /\ ~AtomicPut /\ t \in DOMAIN ops /\ ops[t].name = "PutAlloc" /\ ops[t].todo = << >>
